@@ -1369,6 +1369,30 @@ pub fn run(case: &str, ctx: &mut Ctx) -> String {
             });
             finish(o, n, "-", ctx)
         }
+        // `s <SUPPORTED body hex>`: `Supported::deserialize`, then `ProtocolFeatures::parse_from_supported` (what every
+        // connection negotiates from the option map when it opens)
+        Some("s") if w.len() == 2 => {
+            let Some(bs) = (if w[1] == "-" { Some(vec![]) } else { unhex(w[1]) }) else { return "bad-case".into() };
+            let n = bs.len();
+            let o = guarded(move || {
+                let mut buf = &bs[..];
+                let line = match scylla_cql::frame::response::Supported::deserialize(&mut buf) {
+                    Err(_) => "supported err".to_owned(),
+                    Ok(sup) => {
+                        let f = ProtocolFeatures::parse_from_supported(&sup.options);
+                        format!(
+                            "feat rl={} lwt={} tab={} mid={}",
+                            f.rate_limit_error.map(|x| x.to_string()).unwrap_or("-".into()),
+                            f.lwt_optimization_meta_bit_mask.map(|x| x.to_string()).unwrap_or("-".into()),
+                            f.tablets_v1_supported as u8,
+                            f.scylla_metadata_id_supported as u8
+                        )
+                    }
+                };
+                (line, vec![])
+            });
+            finish(o, n, "-", ctx)
+        }
         // `e <cap> <frame hex>`: the error tail of the row iterator (items yielded after the first failing row)
         Some("e") if w.len() == 3 => {
             let (Ok(cap), Some(bs)) = (w[1].parse::<usize>(), unhex(w[2])) else { return "bad-case".into() };
